@@ -8,90 +8,35 @@ COMMON_NOTE = ("Trusted: Lean kernel (axioms propext/Quot.sound/Classical.choice
 
 CLAIMS = {
     'C03': dict(
-        text="Proved in Lean for every sorted index / every strictly increasing list of segment bases and every offset: the literal "
-             "binary-search loops of index.Consume and segment.Consume return the lower bound / the owning segment, never panic or "
-             "diverge. The L1 model (hand-off between segments, caught-up handling) is tied to the code by a correspondence run that "
-             "issues every offset in [-5, next+2] x maxCount {1,2,3,7,32,40} in reached states and evaluates the L0 relation ConsumeOK "
-             "on the implementation's own results.",
-        note=COMMON_NOTE + "The refinement theorem consume_ok (L1 satisfies ConsumeOK on every reachable state) is in progress; until "
-             "it is in Props/C03 the log-level claim rests on the correspondence."),
+        text="Proved in Lean (consume_ok): on every state satisfying the invariant Inv (hence, by the reachability theorem of C01, every state reached by any history), for every offset incl. the relative ones and every maxCount >= 1, Consume returns a non-empty prefix of the live messages at or after the offset, never more than maxCount, in order, without gap or duplicate, or nothing exactly at NextOffset, and the hand-off between segments skips holes; the literal binary-search loops of index.Consume and segment.Consume return the lower bound / the owning segment for every sorted input and never panic or diverge. Correspondence: every offset in [-5, next+2] x maxCount {1,2,3,7,32,40} in reached states incl. read-only sessions; ConsumeOK is also evaluated on the implementation's own results.",
+        note=COMMON_NOTE + ''),
     'C04': dict(
-        text="Proved in Lean for every sorted index and every offset: index.Get is exact-match search (found / before start / after end / "
-             "not found), segment.Get selects the owning segment with the before-start classification. Correspondence: every offset in "
-             "[-3, next+2] in reached states, L0 relation GetOK on the implementation's results.",
-        note=COMMON_NOTE + "Log-level refinement theorem get_ok in progress."),
+        text="Proved in Lean (get_ok): on every state with Inv, for every offset, Get returns the live message at that offset, ErrNotFound for a deleted or trimmed one, ErrInvalidOffset beyond NextOffset, the first / last live message for OffsetOldest / OffsetNewest (also while the head is empty); index.Get and segment.Get are exact-match searches on every sorted input. Correspondence: every offset in [-3, next+2] in reached states incl. read-only sessions, GetOK on the implementation's results.",
+        note=COMMON_NOTE + ''),
     'C10': dict(
-        text="Proved in Lean for every index with non-decreasing timestamps and every time: index.Time (incl. the sort.Search loop) "
-             "returns the position of the first item at or after the time. Correspondence: monotone histories with runs of equal "
-             "timestamps straddling segment boundaries, every microsecond from first-2 to last+2, L0 relation GetByTimeOK.",
-        note=COMMON_NOTE + "Hypothesis kept visible: times are >= 0 (index timestamps start from 0). Log-level refinement theorem in progress."),
-}
-
-CLAIMS.update({
+        text="Proved in Lean: index.Time (incl. the sort.Search loop) returns the position of the first item at or after the time on every index with non-decreasing timestamps; getByTime_ok on every state with Inv and TimesInv; and unconditionally (lookups_ok_monoX, getByTime_ok_mono): after any history from an empty directory whose publish times never decrease, GetByTime/OffsetByTime return the first live message at or after the time, across segment boundaries with ties and with an empty head. A proved counterexample (cx_getByTime) shows that monotone live messages are not enough: the writer's time carry survives Delete, which is why the property quantifies over the publish history. Correspondence: monotone histories with runs of equal timestamps straddling segment boundaries, every microsecond from first-2 to last+2, GetByTimeOK on the implementation's results.",
+        note=COMMON_NOTE + 'Hypothesis kept visible: times are >= 0 (index timestamps start from 0); negative times are the open known finding D12.'),
     'C02': dict(
-        text="Proved in Lean (publish_step): on every state satisfying the invariant, for every batch incl. the empty one and across a "
-             "rollover at any size, Publish returns next+n, appends exactly the batch stamped next..next+n-1 in order, keeps the invariant; "
-             "every live offset is < next. Correspondence: histories biased to 'delete the tail / delete everything -> reopen -> publish', "
-             "PublishOK and NextOffsetOK evaluated on the implementation's results (incl. the offsets written back into the caller's slice).",
-        note=COMMON_NOTE + "Never-reused across delete/reopen additionally needs the delete and open step theorems (in progress); until then "
-             "that part rests on the correspondence."),
+        text="Proved in Lean: publish_step / publish_offsets (on every state with Inv, for every batch incl. the empty one and across a rollover at any size, Publish returns next+n and appends exactly the batch stamped next..next+n-1 in order), next_monotone (no operation - delete of the tail or of everything, reopen with any options, index removal, migrate, recover - moves NextOffset backwards), never_reused (over any history an assigned offset is never assigned again), live_below_next. Correspondence: histories biased to 'delete the tail / delete everything -> reopen -> publish', PublishOK and NextOffsetOK evaluated on the implementation's results (incl. the offsets written back into the caller's slice).",
+        note=COMMON_NOTE + ''),
     'C07': dict(
-        text="Proved in Lean on the byte-level model: the record scan shared by Check/Recover returns exactly the valid records (at their "
-             "positions) of any file = valid records ++ anything that does not parse as a record there, reports clean iff nothing follows; "
-             "a tail shorter than a record header is always corruption; Recover is a byte-for-byte no-op on every segment Check accepts. "
-             "Correspondence: real Segment.Check/Recover vs Seg.check/Seg.recover on the same bytes for every truncation length, every "
-             "single-byte corruption position, zero/FF/random tails, every index damage, 4 index configurations; plus Check-after-Recover "
-             "and publish-then-Check through the API.",
-        note=COMMON_NOTE + "V1: truncation only (V1's CRC does not cover the record header). check_iff / check_after_recover theorems in progress."),
+        text='Proved in Lean on the byte-level model: the record scan shared by Check/Recover returns exactly the valid records (at their positions) of any file = valid records ++ anything that does not parse as a record there; Check passes iff the log is clean and the index (if present) is the derived one (check_iff); Recover in closed form (recover_eq): it keeps exactly the valid prefix, removes / keeps / rewrites the index accordingly; Recover is a byte-for-byte no-op on everything Check accepts; after Recover Check passes and a second Recover changes nothing (check_after_recover, recover_idempotent); appending keeps Check passing; a tail shorter than a record header is always corruption; a cut record (both versions) never parses. Correspondence: real Segment.Check/Recover vs Seg.check/Seg.recover on the same bytes for every truncation length, every single-byte corruption position, zero/FF/random tails, every index damage, 4 index configurations, monotone and non-monotone times; plus Check-after-Recover and publish-then-Check through the API.',
+        note=COMMON_NOTE + "V1: truncation only (V1's CRC does not cover the record header), as the property says. For arbitrary garbage tails 'does not parse as a record there' stays a hypothesis of recover_eq (discharged for empty tails, tails shorter than a header and cut records)."),
     'C13': dict(
-        text="Proved in Lean for all messages (any key/value bytes <= 64 MiB, any int64 offset/time), both versions: a record reads back "
-             "identical from the position it was written at whatever surrounds it; Size(m) = bytes added; records are back to back at the "
-             "model's positions; index items of the 4 layouts round-trip; the regenerated layout constants equal the documented ones "
-             "(proof obligation by decide). Correspondence: bytes written by the real message/index writers = bytes of the Lean encoder, the "
-             "Lean decoder reads what Go wrote, Go reads back through both reader kinds; Stat vs os.Stat vs the model in API histories.",
-        note=COMMON_NOTE + "Stat exactness over all reachable states rests on the correspondence until stat_spec is proved."),
-})
-
-CLAIMS.update({
+        text="Proved in Lean for all messages (any key/value bytes <= 64 MiB, any int64 offset/time), both versions: a record reads back identical from the position it was written at whatever surrounds it; Size(m) = bytes added; records are back to back at the model's positions; index items of the 4 layouts round-trip; the regenerated layout constants equal the documented ones (proof obligation by decide); Stat = number of segments / messages / exact bytes on every state reachable from a read-write open of an empty directory (stat_spec_reachable). Correspondence: bytes written by the real message/index writers = bytes of the Lean encoder, the Lean decoder reads what Go wrote, Go reads back through both reader kinds; Stat vs os.Stat vs the model in API histories.",
+        note=COMMON_NOTE + ''),
     'C01': dict(
-        text="The L0 state abs(l) is the content of the log. Proved in Lean (for every state satisfying the invariant Inv, every input): "
-             "publish appends exactly the stamped batch across rollover at any size; rollover and reads change no content; Consume shows "
-             "a prefix of the content. Correspondence: full observation (scan from OffsetOldest to NextOffset, NextOffset, Stat, directory "
-             "listing) after every step of generated histories with deletes, trims, compaction, GC, reopen with re-drawn options, index "
-             "removal and migrate, compared with the L1 model exactly and with the L0 list semantics.",
-        note=COMMON_NOTE + "Step theorems for delete and open (reachability of Inv through those ops) in progress; until they are in "
-             "Props/C01 those steps rest on the correspondence."),
-})
-
-CLAIMS.update({
+        text='The L0 state abs(l) is the content of the log. Proved in Lean: fidelity / fidelity_from_empty - every state reached from an empty directory (or from any state with Inv) by any sequence of publish / delete / consume / get / GC / close + reopen with any options, index removal, migrate and recover satisfies the invariant, and its content is the L0 list semantics of the history (published messages in order with their offsets, minus exactly what deletes reported, never anything else); publish appends exactly the stamped batch across rollover at any size; rollover and reads change no content; Consume shows a prefix of the content. Correspondence: full observation (scan from OffsetOldest to NextOffset, NextOffset, Stat, directory listing) after every step of generated histories with deletes, trims, compaction, GC, reopen with re-drawn options, index removal and migrate, compared with the L1 model exactly and with the L0 list semantics.',
+        note=COMMON_NOTE + ''),
     'C09': dict(
-        text="Proved in Lean for an arbitrary hash function: on every state satisfying the invariant (with indexes carrying the key hashes "
-             "of their records), getByKey returns the last live message whose key is byte-equal (nil = empty), ErrNotFound if none, "
-             "ErrNoIndex without the index; consumeByKey returns a non-empty prefix of the live messages with that key, never another key, "
-             "ends at NextOffset. Correspondence: histories over a key set with nil, empty and real FNV-1a-64 colliding pairs; after every "
-             "step GetByKey/OffsetByKey for all keys of the set plus absent keys and ConsumeByKey from every cursor offset.",
-        note=COMMON_NOTE + "The radix tree (go-adaptive-radix-tree) is modelled as a map from hash to positions in insertion order (trusted). "
-             "KeysInv as an invariant of all reachable states is proved for derive-based producers (derive_keys); its preservation by "
-             "publish/open is in progress."),
-})
-
-CLAIMS.update({
+        text='Proved in Lean for an arbitrary hash function: getByKey returns the last live message whose key is byte-equal (nil = empty), ErrNotFound if none, ErrNoIndex without the index; consumeByKey returns a non-empty prefix of the live messages with that key, never another key, and ends at NextOffset - on every state with the invariants, and unconditionally after any history from an empty directory (getByKey_ok_run, consumeByKey_ok_run, lookups_ok_runX: the key-hash invariant is established by open and preserved by every step). Correspondence: histories over a key set with nil, empty and real FNV-1a-64 colliding pairs; after every step GetByKey/OffsetByKey for all keys of the set plus absent keys and ConsumeByKey from every cursor offset.',
+        note=COMMON_NOTE + 'The radix tree (go-adaptive-radix-tree) is modelled as a map from hash to positions in insertion order (trusted).'),
     'C11': dict(
-        text="Proved in Lean: in every state reached by any history, every index (the file of every segment and every loaded index) "
-             "lists exactly the offsets and byte positions of its segment's records; removing any subset of index files and reopening "
-             "with any options keeps the invariant and the content (hence every query result, by the read theorems). Correspondence: at "
-             "every close real segment.Find + Segment.Check on every segment, directory listing with sizes/versions, differential reopen "
-             "with index subsets removed, read-write and read-only, all queries incl. Stat.",
-        note=COMMON_NOTE + "Key hashes / timestamps of index items (KeysInv, TimesInv) are proved for derive-based producers; as invariants "
-             "of publish they rest on the correspondence (byte comparison by Segment.Check at every close) for now."),
+        text="Proved in Lean: in every state reached by any history, every index (the file of every segment and every loaded index) lists exactly the offsets and byte positions of its segment's records; removing any subset of index files and reopening with any options keeps the invariant and the content (hence every query result, by the read theorems of C03/C04/C09/C10); a rebuilt index is exactly the derived one. Correspondence: at every close real segment.Find + Segment.Check on every segment, directory listing with sizes/versions, differential reopen with index subsets removed, read-write and read-only, all queries incl. Stat and Delete/Backup on segments without index file.",
+        note=COMMON_NOTE + "Key hashes / timestamps of index items are covered by the invariants of C09/C10 (KeysInv', TimesInv over reachable histories) and by the byte comparison of Segment.Check at every close."),
     'C12': dict(
-        text="Proved in Lean (delete_step): on every state satisfying the invariant and every offset set, Delete keeps the invariant and "
-             "satisfies DeleteOK in all outcomes of the swap (reader: dropped / rebased / same base; head: emptied / tail deleted / reopened): "
-             "reported messages are live, requested, complete; the new content is the old minus exactly them; NextOffset unchanged; size = "
-             "sum of storage sizes; relative offsets rejected; empty set a no-op. Correspondence: biased offset sets (last message, whole "
-             "head, whole reader segment, first of a segment, already deleted, unassigned, negative, everything), DeleteMulti.",
-        note=COMMON_NOTE + "DeleteMulti-removes-all over live offsets is checked on the implementation's results (relation DeleteMultiOK); "
-             "its proof from delete_step is in progress."),
+        text="Proved in Lean: delete_step - on every state with Inv and every offset set, Delete keeps the invariant and satisfies DeleteOK in all outcomes of the swap (reader: dropped / rebased / same base; head: emptied / tail deleted / reopened): reported messages are live, requested, complete for the chosen segment; the new content is the old minus exactly them; NextOffset unchanged; size = sum of storage sizes; relative offsets rejected; empty set a no-op; delete_lowest (the lowest requested live offset is always removed, so DeleteMulti makes progress), deleteMulti_spec / deleteMulti_complete (DeleteMulti removes exactly the requested live messages, all of them, reports each once, sums the sizes). Correspondence: biased offset sets (last message, whole head, whole reader segment, first of a segment, already deleted, unassigned, negative, everything), DeleteMulti; exact size against the implementation's own directory listing.",
+        note=COMMON_NOTE + ''),
     'C17': dict(
         text="Proved in Lean: abs ignores versions, so mixed-version logs satisfy the same read theorems; Migrate to either version while "
              "closed and reopening with any version options keep the invariant, the live sequence and NextOffset; delete-by-rewrite keeps "
@@ -99,24 +44,12 @@ CLAIMS.update({
              "idempotent. Correspondence: histories where every reopen re-draws the three version options and may Migrate; version byte "
              "and size of every file observed.",
         note=COMMON_NOTE),
-})
-
-CLAIMS.update({
     'C15': dict(
-        text="The helpers are client loops over the API; modelled as the same loops over the L1 model. Proved in Lean: the cursor loop "
-             "from OffsetOldest returns exactly the live messages once and ends at NextOffset for any maxCount >= 1; FindByOffset selects "
-             "exactly the live offsets below the bound; FindByAge selects a prefix with no message newer than the time; loops terminate and "
-             "leave the content untouched. Correspondence: bounds below/inside/above the live range on multi-segment states with holes; the "
-             "Find* selections and the state after Trim*Multi are checked against the L0 relations (prefix, bound holds, not more than "
-             "required, Stat size below target via a following Stat).",
-        note=COMMON_NOTE + "FindByCount/FindBySize/Trim bounds theorems (need stat_spec and deleteMulti) in progress; until then those "
-             "clauses rest on the correspondence."),
+        text='The helpers are client loops over the API; modelled as the same loops over the L1 model. Proved in Lean: the cursor loop from OffsetOldest returns exactly the live messages once and ends at NextOffset for any maxCount >= 1; FindByOffset selects exactly the live offsets below the bound; FindByCount / FindBySize select exactly the shortest prefix that reaches the target (findByCount_eq, findBySize_eq, sizePrefix_minimal) using the exact Stat; FindByAge selects a prefix with no message newer than the time; TrimByOffset/Count/SizeMulti leave the log within the bound (trim*Multi_bound) and remove only a prefix; loops terminate and reads leave the content untouched. Correspondence: bounds below/inside/above the live range on multi-segment states with holes; the Find* selections and the state after Trim*Multi are checked against the L0 relations (prefix, bound holds, not more than required, Stat size below target via a following Stat).',
+        note=COMMON_NOTE + "FindByAge's 'none older left' clause under monotone times is decided by the correspondence (relation FindByAgeOK with histMono), not proved; a documented model artefact: findByOffset needs -4 < before (fuel), the implementation has no such limit and the generator covers it."),
     'C16': dict(
-        text="Proved in Lean: FindUpdates selects exactly the scanned messages having a later scanned message with the same key; FindDeletes "
-             "exactly the value-less first-of-key scanned messages; content untouched by the scans. Correspondence: small key sets with "
-             "tombstones and nil key, all cut-offs, repeated/alternating compactions; latest-value map before/after, removed-only clauses, "
-             "at-most-one-per-key under monotone times evaluated on the implementation's results.",
-        note=COMMON_NOTE + "art.Tree keyed by message key is modelled as an association list (trusted). compact*_latest theorems in progress."),
+        text="Proved in Lean: FindUpdates selects exactly the scanned messages having a later scanned message with the same key bytes; FindDeletes exactly the value-less first-of-key scanned messages; CompactUpdates / CompactDeletes (single and Multi) remove exactly those (compact*_model); compaction never changes the latest value of any key (compactUpdates_latest, compactDeletes_latest, compact_latest for both orders, re-establishing the invariant so that repeated and alternating application is covered); after CompactUpdatesMulti under monotone times at most one message per key remains below the cut-off (compactUpdatesMulti_one_per_key). Correspondence: small key sets with tombstones and nil key, all cut-offs, repeated/alternating compactions; latest-value map before/after, removed-only clauses, at-most-one-per-key evaluated on the implementation's results.",
+        note=COMMON_NOTE + 'art.Tree keyed by message key is modelled as an association list (trusted).'),
     'C19': dict(
         text="Proved in Lean on the lock-table model (flock semantics trusted): over all open/close sequences incl. failing opens never two "
              "writers nor a writer with readers; opens fail while a writer is open; readers admit readers only; lock released by Close and by "
@@ -132,9 +65,6 @@ CLAIMS.update({
              "full observation of the backup; source listing unchanged.",
         note=COMMON_NOTE + "The mtime half of the skip rule is runtime behaviour and not modelled (size-equal files are equal when only "
              "appends happened)."),
-})
-
-CLAIMS.update({
     'C05': dict(
         text="PARTIAL PROOF. Proved in Lean on the byte-level model, for every log content, every batch, every byte count of the batch that reached the "
              "file and every state of the index file: a cut record never parses (both formats); Recover keeps the records before the batch and "
@@ -163,9 +93,6 @@ CLAIMS.update({
              "property states it); directory-entry durability is observed through the dirsync tap, not modelled.",
         technique="Lean 4 theorems over a hand-written byte-level model + regenerated go/ast facts as proof obligations + loss-image "
                   "correspondence against the real Open(Recover)"),
-})
-
-CLAIMS.update({
     'C18': dict(
         text="Proved in Lean over an interleaving semantics of notify.Offset whose three instruction lists are regenerated from the current "
              "pkg/notify/notify.go by a go/ast translator (obligation notify_prog_eq, by decide), for every schedule of any number of Wait / Set "
@@ -182,9 +109,6 @@ CLAIMS.update({
              "up to 8 waiters, observed at quiescence, against the model and the L0 rules.",
         note=COMMON_NOTE + "Go channel semantics are the parameters of the interleaving model (trusted). Fairness (an enabled goroutine eventually "
              "runs) is the Go scheduler's; the theorems state enabledness, not eventual scheduling."),
-})
-
-CLAIMS.update({
     'C14': dict(
         text="PARTIAL PROOF. Proved in Lean on the byte-level model of the V2 record reader (tied to pkg/message by the fmt/damage "
              "correspondence of C13/C07): any change confined to <= 4 consecutive bytes of the bytes a CRC covers changes the CRC-32C "
@@ -199,21 +123,26 @@ CLAIMS.update({
              "format); those cases are observed, not proved. Open known finding KF-ZERO-V1 (zero fill from byte 0 of the segment with base 0).",
         technique="Lean 4 theorems over a hand-written byte-level model (CRC algebra, record decoder) + damaged-read correspondence against the "
                   "real log"),
-})
-
-CLAIMS.update({
     'C08': dict(
-        category='model_checking',
-        text="PARTIAL. Machine-checked: the locking discipline as regenerated go/ast facts (whole read calls under the segment-list read lock; "
-             "every writer access in Publish/Delete under the writer lock; rollover swap under the write lock) is a proof obligation; the "
-             "sequential model whose results the windows are compared with is the L1 model of C01-C12 (refinement theorems there). The "
-             "statement over schedules is decided by exploration of the real code: (a) every pause window of a held call x one or two other "
-             "calls of every kind, judged by enumerating the sequential orders consistent with real time against the model's exact results "
-             "and the resulting directory listing; (b) free-running mixes under the race detector judged by witness-free rules.",
-        note=COMMON_NOTE + "Partial by nature: thread interleavings of the Go runtime and page-wise visibility of concurrent file writes are "
-             "runtime behaviour no theorem about the model can exhibit; the model carries the sequential semantics, the schedules are explored.",
-        technique="regenerated go/ast lock facts as Lean proof obligations + schedule exploration of the real code against the Lean sequential "
-                  "model (linearizability search per window) + free-running histories under the Go race detector judged by the Lean driver"),
-})
+        text="PARTIAL PROOF. Proved in Lean (Klev/Conc.lean, Proofs/ConcProofs.lean) for every schedule of any number of Publish / Delete / "
+             "read calls, with no bound on threads or steps: the lock discipline - reads atomic under the segment-list read lock, Publish "
+             "committing by the head index append under writerMu, Delete committing by the swap under deleteMu and the write locks - is "
+             "linearizable: the commit log read as a sequential run of the specification returns exactly what every call returned and ends in "
+             "exactly the visible state; each finished call committed once, between invocation and response (real-time order); publishers "
+             "receive disjoint consecutive ranges; a visible message disappears only by a Delete that reports it; the locks are exclusive. "
+             "That the source follows this discipline is a set of regenerated go/ast facts (whole read calls under the read lock; every writer "
+             "access in Publish/Delete under the writer lock, following the statement structure; rollover swap under the write lock) and a "
+             "proof obligation. The statement about the real code over real schedules is decided by exploration judged by the Lean driver: "
+             "(a) every pause window of a held call x one or two other calls of every kind: the driver enumerates the sequential orders "
+             "consistent with the recorded real time and accepts when the sequential L1 model returns exactly the results and ends with exactly "
+             "the directory listing observed; (b) free-running mixes (incl. page-straddling records against head rewrites) under the Go race "
+             "detector, judged by witness-free rules.",
+        note=COMMON_NOTE + "Partial by nature: goroutine schedules, the kernel's page-wise visibility of a write and data races are runtime "
+             "behaviour no theorem about a model can exhibit; the atomicity of each critical section is the assumption of the Conc model and "
+             "is what the T3 facts, the pause-window exploration and the race detector check on the code.",
+        technique="Lean 4 theorems over a hand-written interleaving model of the lock discipline + regenerated go/ast lock facts as proof "
+                  "obligations + schedule exploration of the real code against the Lean sequential model (order search per window) + "
+                  "free-running histories under the Go race detector judged by the Lean driver"),
+}
 
 NOT_APPLICABLE = []
